@@ -418,7 +418,7 @@ func TestCheck(t *testing.T) {
 		names = append(names, k)
 	}
 	sortStrings(names)
-	reps := 5
+	reps := 10
 	if rt.Thorough() {
 		reps = 2000
 	}
